@@ -4,7 +4,7 @@ from analysis.cfg import Cfg
 from analysis.flow import DefUse, backward, find_calls, callee_is, callee_ends, op_local, op_const, bool_branch, variant_arms, static_of, field_chain
 from analysis.linear import Linear
 from analysis.table import describe_val, PathWalker
-from rules.common import need, unit, inl, owners
+from rules.common import need, unit, inl, owners, refers_to_static
 
 SCHED = "scheduler::Scheduler"
 OLQ = "common::ordered_work_steal::OrderedLocalQueue"
@@ -292,7 +292,7 @@ def cancel_rule(run, f, rid):
             c = norm(t.get("callee") or "")
             if c.startswith("dashmap::DashSet::") and c.rsplit("::", 1)[1] in ("remove", "clear", "retain", "insert", "remove_if", "shrink_to_fit", "alter"):
                 d2 = d2 or DefUse(ob)
-                if static_of(ob, d2, t["args"][0]) == CANCEL_CO:
+                if refers_to_static(f, ob, d2, t["args"][0], CANCEL_CO):
                     muts.setdefault(ob.npath, set()).add(c.rsplit("::", 1)[1])
     want = {SCHED + "::do_schedule": {"remove"}, SCHED + "::try_cancel_coroutine": {"insert"}}
     # a mutation inside a private helper counts for the function(s) it is entered from
